@@ -94,6 +94,8 @@ ExercisedReg(s, e, f, o, ln) ==
   (IF o.op = "SyncState" /\ o.err = "" /\ o.release > 0 /\ ~Broke(e, f, o) THEN {"C09.syncReleases"} ELSE {}) \cup
   (IF Broke(e, f, o) THEN {"C20.break"} ELSE {}) \cup
   (IF o.op = "SyncState" /\ o.id \notin DOMAIN e.r.tables THEN {"C09.unknownTable"} ELSE {}) \cup
+  (IF o.op = "SyncState" /\ o.id \notin DOMAIN e.r.tables /\ (o.id \in e.gone \/ o.id \in DOMAIN e.pend) THEN {"C09.brokenTableNamed"} ELSE {}) \cup
+  (IF o.op = "SyncState" /\ o.id \notin DOMAIN e.r.tables /\ o.out > 0 THEN {"C09.unknownTableWithEliminations"} ELSE {}) \cup
   (IF o.op = "AddPlayers" /\ e.r.status = AfterReg THEN {"C09.afterDeadline"} ELSE {}) \cup
   (IF ln.settle = "end" /\ s.active THEN {"C20.settleEpisode", "C20.settleSweeps" \o ToString(s.sweep)} ELSE {})
 =============================================================================
